@@ -492,12 +492,12 @@ def run(tier, seed):
         if sig not in seen_sig and len(seen_sig) < 8:
             seen_sig.append(sig)
             R.violation(sig, desc, replay)
-    if proof_broken and not R.violations and not R.known_hit:
+    if proof_broken and not R.violations:
         R.violation('proof-broken' if not unmatched else 'unmatched-order-site',
                     'Coq proof stage failed' + (': new unordered-collection site(s) without an order-independence theorem' if unmatched else ''),
                     {'no_failing_input_found': True, 'theorem_or_correspondence': 'Det/Sites.v all_set_sites_matched / Props/C18.v',
                      'unmatched_sites': unmatched[:10], 'log': (scan_err or P['log'])[-2500:]})
-    if mismatches and not R.violations and not R.known_hit:
+    if mismatches and not R.violations:
         R.violation('correspondence-broken', 'finalize model and CountingInterpreter.finalize disagree',
                     {'no_failing_input_found': True, 'theorem_or_correspondence': 'correspondence mlref_det vs CountingInterpreter.finalize',
                      'first_mismatches': [repr(m)[:1200] for m in mismatches[:4]]})
